@@ -21,7 +21,7 @@ PROPS = {
                    "for every input and history no parsed item has a tag when the report is pulled (C23_parsed_items_unreported); every reported probe body except the after / alternate list "
                    "of the final `end` occurs verbatim in the emitted code (C23_probe_ids). The whole property (one record per tagged added item / probe with tag and content, none for "
                    "parsed or deleted items, probe records name function / instruction / mode and carry bodies in the index space of the encoding) is decided per history in Coq on the "
-                   "real report and the real encoding. Known classes D22, D205, D06; D204 is repaired (fix: commit).",
+                   "real report and the real encoding. Known classes D22, D205; D204 and the index-space defect D06 are repaired (fix: commits).",
         level_note="Trusted: Coq kernel + vm_compute; the harness (generator, conversion of Injection values to tokens, replay of the history on a second copy for the encoding, wasmparser decoding). "
                    "Modelled, not verified: the pull_side_effects branches, tag handling of the addition API, add_injections. Reading of the text (stated in CheckSideFx.v): an item 'carries a tag' "
                    "when a non-empty tag was given; a record for an added item / probe without one is tolerated only with the empty tag; index-valued fields of addition records "
